@@ -9,10 +9,24 @@ algorithm (STABLE-PROPAGATE).  "The expected shape was not found" is Undecidable
 guarded objects (sd->temporary, sd->pieces, the barrier, the raw buffer) whose kind is not recognised.
 
 Roles are taken from the interface, never from names of locals: sd / barrier / mwmsa by parameter type, the thread index as
-the argument that changes between the spawns of the worker threads, the raw buffer as the value of the operator new call."""
+the argument that changes between the spawns of the worker threads, the raw buffer as the value of the operator new call.
+
+Forms that are read (second pass):
+ - an element of a container of the sorting data in any of the spellings of Roles.elem_parts (c[i], c.at(i), c.begin()[i],
+   *(c.begin() + i), *(c.data() + i), through a saved begin());
+ - FORK-JOIN / INDEX-BY-COPY by evaluation of the spawn and the join loop for 1..4 threads (check_fork_join): for / while /
+   do loops, counters declared in front of the loop, either direction, `for (std::thread& t : threads) t.join()`, a bound
+   spelled threads.size() (= the constructor argument of the container);
+ - BARRIER-PHASES: a loop around a wait whose first test is decided by constants (entered_loops) is entered / skipped, so
+   `for (r = 0; r < 2; ++r) barrier.wait();` is a barrier on every path and `for (r = 0; r < 0; ++r) barrier.wait();` none;
+ - TEMP-DESTROY: when the statements that construct / destroy do not determine the counts (a bound that is computed
+   elsewhere in the function from data, e.g. the merged length), the whole body is evaluated in fully specified worlds
+   (Life.run, world: thread 1 of 3, each valid splitting algorithm, all elements equal so that lower_bound / upper_bound are
+   decided); only a world in which every step evaluates and the destroyed elements differ from the constructed ones is
+   reported - no such world leaves the finding of the first evaluation (cannot decide);
+ - the C08 rules for the multisequence_partition instantiation of this translation unit run here too (exact splitting)."""
 from engine import ir, dtable, match, cfg as cfgm, skel
 from engine.ir import kids, strip_casts, const_int, ref_of
-from rules.parcommon import check_fork_join
 
 PU = "tlx::parallel_mergesort_detail::parallel_sort_mwms_pu"
 BASE = "tlx::parallel_mergesort_base"
@@ -22,6 +36,7 @@ VALID_MWMSA = (0, 1)             # MWMSA_SAMPLING, MWMSA_EXACT: the splitting al
 INDEP, UNKNOWN, DEP = 0, 1, 2    # thread dependence of a value: same for all threads / not known / mentions the thread index
 ASSIGN_OPS = ("=", "+=", "-=", "*=", "/=", "%=", "|=", "&=", "^=", ">>=", "<<=")
 LOOPS = ("ForStmt", "WhileStmt", "DoStmt")
+SLOT_KINDS = ("ArraySubscriptExpr", "CXXOperatorCallExpr", "CXXMemberCallExpr", "UnaryOperator")   # node kinds of sd->field[index] (Roles.elem_parts)
 # standard algorithms that take their iterator / value arguments without keeping a reference to them and without destroying elements
 BYVALUE_CALLS = {"sort", "stable_sort", "lower_bound", "upper_bound", "equal_range", "binary_search", "uninitialized_copy", "uninitialized_copy_n",
                  "uninitialized_move", "uninitialized_move_n", "uninitialized_fill", "uninitialized_fill_n", "destroy", "destroy_n", "destroy_at",
@@ -194,6 +209,12 @@ def thread_index_param(tu, fn):
                 w = match.unop(y, ("++", "--")) or (match.binop(y, ASSIGN_OPS) if y["k"] in ("BinaryOperator", "CompoundAssignOperator", "CXXOperatorCallExpr") else None)
                 if w and ref_of(w[1]) is not None:
                     varying.add(ref_of(w[1]))
+            # a local of the loop body that is computed from a varying variable varies too
+            for _ in range(4):
+                for y in ir.walk(loop):
+                    if y["k"] == "VarDecl" and y.get("did") is not None and y["did"] not in varying and kids(y) and kids(y)[0] is not None and \
+                            any(z["k"] == "DeclRefExpr" and z["ref"]["id"] in varying for z in ir.walk(kids(y)[0])):
+                        varying.add(y["did"])
             for c in calls:
                 args = kids(c)
                 if len(args) != len(fn.params):
@@ -237,9 +258,35 @@ class Roles:
             b = self.L.resolve(d)
         return f[1] if ref_of(b) == self.sd else None
 
+    def elem_parts(self, e):
+        """(container expression, index expression) if e is an element of a random-access container, in one of the spellings
+        c[i], c.at(i), c.begin()[i], c.data()[i], *(c.begin() + i), *(i + c.begin()), *(c.data() + i); locals that keep
+        their initial value (a saved begin()) are read through"""
+        L = self.L
+
+        def whole(it):
+            c = match.call_named(L.resolve(match.strip_conv(it)), ("begin", "cbegin", "data"))
+            if c is not None and c.get("member_call") and len(kids(c)) == 1 and (c["callee"].get("qname") or "").startswith(("tlx::SimpleVector", "std::vector", "std::array")):
+                return kids(c)[0]
+            return None
+        e = L.resolve(e)
+        p = match.index_parts(e)
+        if p:
+            w = whole(p[0])
+            return (w, p[1]) if w is not None else p
+        d = match.deref_of(e)
+        if d is not None:
+            b = match.binop(L.resolve(d), ("+",))
+            if b:
+                for it, ix in ((b[1], b[2]), (b[2], b[1])):
+                    w = whole(it)
+                    if w is not None:
+                        return w, ix
+        return None
+
     def slot(self, e):
         """(field, index expression) if e is sd->field[index]"""
-        p = match.index_parts(self.L.resolve(e))
+        p = self.elem_parts(e)
         if p:
             m = self.sd_field(p[0])
             if m:
@@ -376,12 +423,85 @@ class Dep:
 
 
 # ------------------------------------------------------------------------------------------------ CFG helpers
-def find_path(g, a, b, avoid, blocked=()):
+def find_path(g, a, b, avoid, blocked=(), entered=None):
     """blocks of a path from just after position a (None: the function entry) to position b that passes no position of
-    `avoid` and takes no edge of `blocked`; None if there is none"""
+    `avoid` and takes no edge of `blocked`; None if there is none.  entered: {head block: exit successor} of loops whose
+    first test succeeds - a path that reaches such a head from outside the loop (not over a back edge) goes into the body"""
     if a is None:
         a = (g.entry, -1)
-    return g.path_between_avoiding(a, b, [p for p in avoid if p is not None], blocked)
+    avoid = [p for p in avoid if p is not None]
+    if not entered:
+        return g.path_between_avoiding(a, b, avoid, blocked)
+    tset = {}
+    for t in avoid:
+        tset.setdefault(t[0], []).append(t[1])
+    if a[0] == b[0] and b[1] > a[1] and not any(a[1] < j < b[1] for j in tset.get(a[0], [])):
+        return [a[0]]
+    if any(j > a[1] for j in tset.get(a[0], [])):
+        return None
+    be, dom = set(blocked), g.dom()
+
+    def first(frm, to):
+        return to in entered and not (frm in dom and to in dom[frm])
+    work = [(s_, first(a[0], s_), [a[0], s_]) for s_ in g.succ[a[0]] if (a[0], s_) not in be]
+    seen = set()
+    while work:
+        blk, fl, path = work.pop()
+        if (blk, fl) in seen:
+            continue
+        seen.add((blk, fl))
+        if blk == b[0]:
+            if not any(j < b[1] for j in tset.get(blk, [])):
+                return path
+            continue
+        if blk in tset:
+            continue
+        for s_ in g.succ[blk]:
+            if (blk, s_) in be or (fl and s_ == entered[blk]):
+                continue
+            work.append((s_, first(blk, s_), path + [s_]))
+    return None
+
+
+def entered_loops(fn, g, L, loops):
+    """-> (entered, skipped).  entered: {head block: exit successor} for those of the given for / while loops whose first
+    test is true whatever the data is; skipped: [(head block, body successor)] for those whose first test is false (the
+    body is never run).  The initialisation and the condition evaluate on constants alone; a counter that is declared in
+    front of the loop (in no other loop) and changed only inside it has its initial value at the first test"""
+    entered, skipped = {}, []
+    for lp in loops:
+        init, cond, inc, body = match.loop_parts(lp)
+        if cond is None:
+            continue
+        env = {}
+        for d, v in L.decl.items():
+            ws = L.writes.get(d, [])
+            if not ws or contains(lp, v) or not all(contains(lp, w) for w in ws) or d in L.exposed or is_ref_ty(v.get("ty")) or not kids(v) or \
+                    const_int(kids(v)[0]) is None:
+                continue
+            # the declaration and the loop are run the same number of times: no loop around this one that does not hold the declaration too
+            par, nested = fn.parent(lp), False
+            while par is not None and not contains(par, v):
+                nested = nested or par["k"] in LOOPS + ("CXXForRangeStmt",)
+                par = fn.parent(par)
+            if par is not None and not nested and not any(y["k"] in ("GotoStmt", "LabelStmt") for y in fn.nodes()):
+                env[d] = const_int(kids(v)[0])
+        sk = skel.Skel(fn, env, None, None)
+        try:
+            if init is not None:
+                sk.stmt(init)
+            v = sk.ev(cond)
+        except (dtable.Undecidable, skel.Return, skel.Diverges):
+            continue
+        if not isinstance(v, (bool, int)):
+            continue
+        heads = [bid for bid, b in g.blocks.items() if b.get("term") == lp["id"] and len(b.get("succ", [])) == 2 and None not in b["succ"]]
+        if len(heads) == 1 and not any(y["k"] == "BinaryOperator" and y.get("op") in ("&&", "||") for y in ir.walk(cond)):
+            if v:
+                entered[heads[0]] = g.blocks[heads[0]]["succ"][1]
+            elif not any(y["k"] in ("GotoStmt", "LabelStmt") for y in fn.nodes()):
+                skipped.append((heads[0], g.blocks[heads[0]]["succ"][0]))
+    return entered, skipped
 
 
 def lazy_locals(L):
@@ -475,6 +595,8 @@ class Life:
     (BUF for this thread once the slot has been assigned).  Locals that keep their initial value are read through."""
     BUF, SRC, OTHER, IAM = 5000, 100000, 20000, 1
     OTHER_INT = 3                 # value of the other integer parameters (the thread count) at the evaluated grid point
+    FREE_INT = 2                  # value of the integer tunables (non-const globals) in a whole-body world
+    SD = ("sd",)                  # value of the sorting data pointer in a whole-body world
 
     def __init__(self, R, g):
         self.R, self.fn, self.L, self.g = R, R.fn, R.L, g
@@ -506,16 +628,102 @@ class Life:
     def starts(self, k, length):
         return sum(length if j == self.IAM else length + 2 + j for j in range(k))
 
-    def run(self, length, units=(), exprs=()):
+    def tainted_locals(self):
+        """locals whose value the whole-body evaluation does not track: address taken, changed inside a lambda through a
+        by-reference capture, bound to a reference through an expression that chooses between objects"""
+        fn, L, out = self.fn, self.L, set()
+
+        def chosen(e):
+            e = strip_casts(e)
+            if e is None:
+                return
+            if e["k"] == "DeclRefExpr":
+                out.add(e["ref"]["id"])
+            elif e["k"] == "ConditionalOperator":
+                chosen(kids(e)[1])
+                chosen(kids(e)[2])
+            elif e["k"] == "ParenExpr":
+                chosen(kids(e)[0])
+            elif e["k"] == "BinaryOperator" and e.get("op") == ",":
+                chosen(kids(e)[1])
+        for y in fn.nodes():
+            if y["k"] == "UnaryOperator" and y.get("op") == "&" and ref_of(kids(y)[0]) is not None:
+                out.add(ref_of(kids(y)[0]))
+            if y["k"] == "LambdaExpr":
+                lf = fn.tu.by_did.get(y.get("fn"))
+                for c in y.get("captures", []):
+                    if c.get("byref") and c.get("id") is not None and (lf is None or c["id"] in L.touched_in(lf)):
+                        out.add(c["id"])
+            if y["k"] == "VarDecl" and is_ref_ty(y.get("ty")) and not is_const_ty(y.get("ty")) and kids(y) and kids(y)[0] is not None and \
+                    strip_casts(kids(y)[0])["k"] != "DeclRefExpr":
+                chosen(kids(y)[0])
+        return out
+
+    def world_ready(self, tu):
+        """closed world for the evaluation of the whole body: the slots of sd->temporary / sd->pieces are used in the worker
+        only (in the subscript forms), and no function that receives the sorting data writes the partition"""
+        R, fn = self.R, self.fn
+        foreign = foreign_field_uses(tu, R, ("temporary", "pieces"))
+        if foreign:
+            raise und(fn, foreign[0][0], foreign[0][1])
+
+        def writes_partition(f, depth=0):
+            for y in f.nodes():
+                w = match.unop(y, ("++", "--")) or (match.binop(y, ASSIGN_OPS) if y["k"] in ("BinaryOperator", "CompoundAssignOperator", "CXXOperatorCallExpr") else None)
+                if w:
+                    for z in ir.walk(w[1]):
+                        if z["k"] == "MemberExpr" and SD_RECORD in (z.get("owner") or "") and (z.get("member") == "starts" or
+                                                                                               (z.get("member") == "source" and strip_casts(w[1]) is z)):
+                            return y
+                if y["k"] == "MemberExpr" and SD_RECORD in (y.get("owner") or "") and y.get("member") in ("starts", "source"):
+                    par = f.parent(y)
+                    while par is not None and par["k"] in ("ImplicitCastExpr", "ParenExpr"):
+                        par = f.parent(par)
+                    if par is not None and ((par["k"] == "UnaryOperator" and par.get("op") == "&") or
+                                            ("callee" in par and par["k"] != "CXXOperatorCallExpr" and not Locals.harmless_call(par) and
+                                             not (par.get("member_call") and par["callee"].get("const")) and match.index_parts(par) is None)):
+                        return y
+                if depth < 4 and "callee" in y and any(a is not None and SD_RECORD in (a.get("ty") or "") for a in kids(y)):
+                    cal = tu.by_did.get(y["callee"].get("did"))
+                    if cal is not None and cal.body is not None and cal is not f:
+                        m = writes_partition(cal, depth + 1)
+                        if m is not None:
+                            return m
+            return None
+        for x in fn.nodes():
+            f = None
+            if x["k"] == "LambdaExpr" and any(c.get("id") == R.sd for c in x.get("captures", [])):
+                f = tu.by_did.get(x.get("fn"))
+            elif "callee" in x and x["k"] != "CXXOperatorCallExpr" and any(a is not None and ref_of(R.L.resolve(a)) == R.sd for a in kids(x)):
+                f = tu.by_did.get(x["callee"].get("did"))
+                if f is None or f.body is None:
+                    raise und(fn, x, "%s() receives the sorting data and its body is not available" % x["callee"]["name"])
+            if f is not None and writes_partition(f) is not None:
+                raise und(fn, x, "a function / lambda that receives the sorting data changes sd->starts / sd->source")
+
+    def run(self, length, units=(), exprs=(), world=None):
         """evaluates the given statements of the function body (in order) and then the given expressions for a chunk of
-        `length` elements -> (events, values); events: ('dtor', address) / ('free', address) / ('construct', dest, count)"""
+        `length` elements -> (events, values); events: ('dtor', address) / ('free', address) / ('construct', dest, count).
+
+        world: None, or a value of the splitting-algorithm parameter.  Then `units` is the whole function body and it is
+        evaluated in one fully specified world: thread IAM of OTHER_INT threads, that splitting algorithm, every free
+        integer tunable = FREE_INT, and ALL ELEMENTS EQUAL - so std::lower_bound returns the begin and std::upper_bound
+        the end of the searched range of elements, for every valid comparator.  In this mode the locals live in the
+        skeleton's environment (nothing is read through), sd->pieces[i][j].m is memory written and read by this thread
+        (a cell it has not written is data), calls that set an integer local through a reference are entered, every
+        other call forgets the locals it may change.  `world_ready` must have been passed."""
         R, L, fn, g = self.R, self.L, self.fn, self.g
+        tu = fn.tu
         events = []
         busy = set()
         inside = set()
         for u in units:
             inside |= {y["id"] for y in ir.walk(u)}
         own_store = [s for s in self.stores if R.is_iam(s[1])]
+        pieces = {}
+        tainted = self.tainted_locals() if world is not None else set()
+        comp_params = [p_["did"] for p_ in fn.params if p_["did"] not in (R.sd, R.iam, R.barrier, R.mwmsa) and not is_int_ty(p_.get("ty")) and
+                       not is_ptr_ty(p_.get("ty"))]
 
         def addr(v):
             if isinstance(v, tuple) and len(v) == 2 and v[0] == "ptr":
@@ -544,8 +752,15 @@ class Life:
                 return None
             d = e0["ref"]["id"]
             pr = self.params.get(d)
+            if world is not None and d == R.sd:
+                return self.SD
             if pr is not None and d != R.iam and L.param_unchanged(d) and (pr.get("ty") or "").replace("const ", "").strip() in INT_TYPES:
                 return self.OTHER_INT
+            if world is not None:
+                # a namespace-scope integer that is not const is a tunable: any value is possible, this world takes FREE_INT
+                if e0["ref"].get("kind") == "global" and is_int_ty(e0.get("ty")) and not is_const_ty(e0.get("ty")) and const_int(e0) is None:
+                    return self.FREE_INT
+                return None
             v = L.decl.get(d)
             if v is None or not kids(v) or kids(v)[0] is None or d in busy:
                 return None
@@ -572,17 +787,152 @@ class Life:
             finally:
                 busy.discard(d)
 
+        def is_index(v):
+            return isinstance(v, int) and not isinstance(v, bool)
+
+        def piece_loc(e, sk):
+            """('pieces', i, j, member) if e is sd->pieces[i][j].member"""
+            f = match.field_of(e) if e is not None and strip_casts(e)["k"] == "MemberExpr" else None
+            p2 = R.elem_parts(f[0]) if f else None
+            s_ = R.slot(p2[0]) if p2 else None
+            if not s_ or s_[0] != "pieces":
+                return None
+            i, j = sk.ev(s_[1]), sk.ev(p2[1])
+            if not is_index(i) or not is_index(j):
+                raise und(fn, e, "sd->pieces[..][..]: index depends on data")
+            return "pieces", i, j, f[1]
+
+        def written(e):
+            """(op, target, value expression or None) if e assigns / steps something"""
+            if e["k"] in ("BinaryOperator", "CompoundAssignOperator", "CXXOperatorCallExpr"):
+                b_ = match.binop(e, ASSIGN_OPS)
+                if b_:
+                    return b_
+            u_ = match.unop(e, ("++", "--")) if e["k"] in ("UnaryOperator", "CXXOperatorCallExpr") else None
+            return (u_[0], u_[1], None) if u_ else None
+
+        def sd_valued(base, sk):
+            """the expression names the sorting data (by value of a parameter of an entered function)"""
+            d_ = match.deref_of(base)
+            b0 = strip_casts(d_ if d_ is not None else base)
+            if b0 is None or b0["k"] != "DeclRefExpr":
+                return False
+            return sk.env.get(sk.alias.get(b0["ref"]["id"], b0["ref"]["id"])) == self.SD
+
+        def forget_args(e, args, sk, handed):
+            """after a call that is not entered: the locals it may have changed are data"""
+            for d_ in handed:
+                sk.store(sk.alias.get(d_, d_), None)
+            for a in args:
+                a0 = strip_casts(a)
+                if a0 is not None and a0["k"] == "UnaryOperator" and a0.get("op") == "&":
+                    sk.store(sk.lvalue(kids(a0)[0]), None)
+                elif a0 is not None and a0["k"] == "DeclRefExpr":
+                    v_ = sk.env.get(sk.alias.get(a0["ref"]["id"], a0["ref"]["id"]))
+                    if isinstance(v_, tuple) and len(v_) == 2 and v_[0] == "ptr":
+                        sk.store(v_[1], None)
+
+        def enterable(e):
+            cal = tu.by_did.get(e["callee"].get("did")) if tu is not None else None
+            return cal if cal is not None and cal.body is not None and cal.kind not in ("ctor", "dtor", "lambda") and e["k"] == "CallExpr" else None
+
+        def callee_event(e, sk):
+            """inside a function that was entered from the worker: it may read the partition, everything else of the sorting
+            data is data; it does not construct, destroy, allocate or write the fields the evaluation stands on"""
+            k = e["k"]
+            cf = sk.fn
+            if k in ("DeclRefExpr", "IntegerLiteral", "ImplicitCastExpr"):
+                return NotImplemented
+            if is_dtor_op(e) or k in ("CXXNewExpr", "CXXDeleteExpr") or ("callee" in e and (e["callee"]["name"] in ("operator new", "operator delete") or
+                                                                                           e["callee"]["name"] in CONSTRUCTS)):
+                raise und(cf, e, "a function entered from the worker constructs / destroys / allocates")
+            w = written(e)
+            if w:
+                for y in ir.walk(w[1]):
+                    f_ = match.field_of(y) if y["k"] == "MemberExpr" else None
+                    if f_ and sd_valued(f_[0], sk) and f_[1] in ("starts", "temporary", "pieces"):
+                        raise und(cf, e, "a function entered from the worker writes sd->%s" % f_[1])
+                    if f_ and sd_valued(f_[0], sk) and f_[1] == "source" and strip_casts(w[1]) is y:
+                        raise und(cf, e, "a function entered from the worker writes sd->source")
+                return NotImplemented
+            if k == "MemberExpr":
+                f_ = match.field_of(e)
+                if f_ and sd_valued(f_[0], sk):
+                    return self.SRC if f_[1] == "source" else None
+                return NotImplemented
+            ip = match.index_parts(e) if k in SLOT_KINDS else None
+            f_ = match.field_of(ip[0]) if ip and strip_casts(ip[0])["k"] == "MemberExpr" else None
+            if f_ and sd_valued(f_[0], sk):
+                kx = sk.ev(ip[1])
+                if f_[1] == "pieces":
+                    raise und(cf, e, "a function entered from the worker uses sd->pieces")
+                if not is_index(kx):
+                    return None
+                if f_[1] == "starts":
+                    return self.starts(kx, length)
+                if f_[1] == "temporary" and kx != self.IAM:
+                    return self.OTHER + 1000 * kx
+                return None
+            if "callee" not in e:
+                return NotImplemented
+            name = e["callee"]["name"]
+            if k == "CXXOperatorCallExpr" or std_call(e, ("min", "max")):
+                return NotImplemented
+            args = [a for a in kids(e) if a is not None and a["k"] != "DefaultArg"]
+            if enterable(e) is not None:
+                r = sk.inline(e, args)
+                if r is not NotImplemented:
+                    return r
+            vals = [sk.ev(a) for a in args]
+            if any(v_ == self.SD for v_ in vals):
+                raise und(cf, e, "%s() receives the sorting data and is not followed" % name)
+            if not Locals.harmless_call(e):
+                forget_args(e, args, sk, [strip_casts(a)["ref"]["id"] for a in args[(1 if e.get("member_call") else 0):]
+                                          if strip_casts(a) is not None and strip_casts(a)["k"] == "DeclRefExpr"])
+            return None
+
         def event(e, sk):
             k = e["k"]
+            if world is not None:
+                if sk.fn is not fn:
+                    return callee_event(e, sk)
+                if k == "DeclRefExpr" and e["ref"]["id"] in tainted:
+                    return None
+                if k == "MemberExpr":
+                    pl = piece_loc(e, sk)
+                    if pl:
+                        return pieces.get(pl)
+                w = written(e) if k in ("BinaryOperator", "CompoundAssignOperator", "CXXOperatorCallExpr", "UnaryOperator") else None
+                pl = piece_loc(w[1], sk) if w and strip_casts(w[1]) is not None and strip_casts(w[1])["k"] == "MemberExpr" else None
+                if pl:
+                    if pl[1] != self.IAM:
+                        raise und(fn, e, "the thread writes sd->pieces[%d][..], another thread's row: what the others write to this thread's row is not known" % pl[1])
+                    v_ = sk.ev(w[2]) if w[2] is not None else None
+                    pieces[pl] = v_ if w[0] == "=" and is_index(v_) else None
+                    return pieces[pl]
+                if std_call(e, ("lower_bound", "upper_bound")):
+                    args = [a for a in kids(e) if a is not None and a["k"] != "DefaultArg"]
+                    if len(args) in (3, 4):
+                        a0, a1 = addr(sk.ev(args[0])), addr(sk.ev(args[1]))
+                        in_buf = a0 is not None and a1 is not None and a1 >= a0 and (self.BUF <= a0 <= self.BUF + max(length, 0) or
+                                                                                      self.OTHER <= a0 < self.OTHER + 1000 * 64)
+                        roots = [R.sd_field(y) for y in ir.walk(args[2]) if y["k"] == "MemberExpr"]
+                        elem = any(r_ in ("samples", "source", "temporary") for r_ in roots)
+                        cmp_ok = len(args) == 3 or (len(comp_params) == 1 and ref_of(L.resolve(args[3])) == comp_params[0])
+                        if in_buf and elem and cmp_ok:
+                            return a0 if e["callee"]["name"] == "lower_bound" else a1
+                    return None
             if k in ("DeclRefExpr", "IntegerLiteral", "ImplicitCastExpr"):
                 return NotImplemented
             if k == "MemberExpr":
                 if R.sd_field(e) == "source":
                     return self.SRC
                 return NotImplemented
-            s = R.slot(e) if k in ("ArraySubscriptExpr", "CXXOperatorCallExpr", "CXXMemberCallExpr") else None
+            s = R.slot(e) if k in SLOT_KINDS and (k != "UnaryOperator" or e.get("op") == "*") else None
             if s:
                 kx = sk.ev(s[1])
+                if world is not None and s[0] == "pieces":
+                    raise und(fn, e, "sd->pieces[..] is used in a form other than sd->pieces[i][j].member")
                 if not isinstance(kx, int) or isinstance(kx, bool):
                     return None
                 if s[0] == "starts":
@@ -661,12 +1011,22 @@ class Life:
                 return NotImplemented
             # any other call: its arguments are evaluated, its body is not entered; a call that receives a pointer into the
             # raw buffer and is not known to leave the elements alive makes the life cycle undecidable
+            handed = L.handed_out(e) if world is not None else ()
+            if world is not None and enterable(e) is not None and any(is_int_ty((L.decl.get(d_) or self.params.get(d_) or {}).get("ty")) for d_ in handed):
+                r = sk.inline(e, args)      # sets an integer local of the worker through a reference: entered
+                if r is not NotImplemented:
+                    return r
             vals = [addr(sk.ev(a)) for a in args]
             if any(isinstance(v, int) and self.BUF <= v <= self.BUF + max(length, 0) + 1 for v in vals) and not Locals.harmless_call(e):
                 raise und(fn, e, "%s() receives a pointer into the raw buffer: effect on the temporaries not known" % name)
+            if world is not None:
+                forget_args(e, args, sk, handed)
             return None
 
-        sk = skel.Skel(fn, {R.iam: self.IAM}, unknown, event, max_iter=24)
+        env = {R.iam: self.IAM}
+        if world is not None:
+            env[R.mwmsa] = world
+        sk = skel.Skel(fn, env, unknown, event, max_iter=24)
         for u in units:
             try:
                 sk.stmt(u)
@@ -717,11 +1077,17 @@ def foreign_field_uses(tu, R, fields):
                 elif mentions(cal) is not None:
                     out.append((x, "%s() receives the sorting data and accesses sd->%s" % (x["callee"]["name"], mentions(cal)["member"])))
         if x["k"] == "MemberExpr" and R.sd_field(x) in fields:
-            par = fn.parent(x)
-            while par is not None and par["k"] in ("ImplicitCastExpr", "CXXStaticCastExpr", "CStyleCastExpr", "CXXFunctionalCastExpr", "CXXConstCastExpr"):
+            # the use is the container of an element access (one of the spellings of Roles.elem_parts) a few levels up
+            par, ok = fn.parent(x), False
+            for _ in range(8):
+                if par is None or par["k"] in ("CompoundStmt", "DeclStmt", "IfStmt") + LOOPS:
+                    break
+                ep = R.elem_parts(par) if par["k"] in SLOT_KINDS else None
+                if ep and contains(ep[0], x) and R.sd_field(ep[0]) == x["member"]:
+                    ok = True
+                    break
                 par = fn.parent(par)
-            ip = match.index_parts(par) if par is not None else None
-            if not (ip and contains(ip[0], x)):
+            if not ok:
                 out.append((x, "sd->%s is used as a whole (not through a subscript)" % x["member"]))
     return out
 
@@ -743,7 +1109,7 @@ def unknown_buffer_use(fn, R, life):
         if x["k"] == "DeclRefExpr":
             if x["ref"]["id"] not in alias:
                 continue
-        elif x["k"] in ("ArraySubscriptExpr", "CXXOperatorCallExpr", "CXXMemberCallExpr"):
+        elif x["k"] in SLOT_KINDS and (x["k"] != "UnaryOperator" or x.get("op") == "*"):
             sl = R.slot(x)
             if not sl or sl[0] != "temporary":
                 continue
@@ -808,16 +1174,15 @@ def check_temp_destroy(ck, tu, fn, tag, R, life):
             lf = tu.by_did.get(x.get("fn"))
             if lf is None or any(is_dtor_op(y) or ("callee" in y and y["callee"]["name"] in ("operator delete",)) for y in lf.nodes()):
                 raise und(fn, x, "a lambda of the worker destroys / releases objects: not followed")
-    bad = None
-    for length in range(4):
-        ev, vals = life.run(length, allunits, [] if any(contains(u, dels[0]) for u in allunits) else [dels[0]])
+    def analyse(ev):
+        """-> (number constructed, constructed offsets, destroyed offsets) of one evaluation; Undecidable if an address / a
+        count is data or the events are not construct* -> dtor* -> one free of the buffer"""
         cons = [e for e in ev if e[0] == "construct"]
         if any(e[1] is None or e[2] is None or e[2] < 0 for e in cons):
             raise und(fn, constructs[0], "target / number of the elements constructed into the raw buffer not evaluated")
         built = sorted(a for e in cons for a in range(e[1], e[1] + e[2]))
         if any(not (life.BUF <= a < life.BUF + 64) for a in built):
             raise und(fn, constructs[0], "elements are constructed outside the buffer obtained from operator new")
-        count = len(built)
         frees = [e for e in ev if e[0] == "free"]
         if len(frees) != 1 or frees[0][1] != life.BUF:
             raise und(fn, dels[0], "released buffer is not the buffer obtained from operator new")
@@ -827,8 +1192,42 @@ def check_temp_destroy(ck, tu, fn, tag, R, life):
         order = [e[0] for e in ev if e[0] in ("dtor", "free")]
         if "free" in order and "dtor" in order[order.index("free"):]:
             raise und(fn, dels[0], "destructor calls after operator delete in the same statement")
-        if sorted(hits) != built and bad is None:
-            bad = (count, [a - life.BUF for a in built], sorted(h - life.BUF for h in hits))
+        return len(built), [a - life.BUF for a in built], sorted(h - life.BUF for h in hits)
+
+    def world_counterexample():
+        """the statements that construct / destroy do not determine the counts by themselves (a bound computed elsewhere in the
+        function, from data): the whole body is evaluated in fully specified worlds (Life.run, world); a world in which
+        every step evaluates and the destroyed elements are not the constructed ones is a counterexample -> text"""
+        try:
+            life.world_ready(tu)
+        except dtable.Undecidable:
+            return None
+        for v in VALID_MWMSA:
+            names = sorted({y["ref"]["name"] for y in fn.nodes() if y["k"] == "DeclRefExpr" and y["ref"].get("kind") == "enumconst" and const_int(y) == v and
+                            "MultiwayMergeSplittingAlgorithm" in (y.get("ty") or "")})
+            for length in (3, 2, 1):
+                try:
+                    r = analyse(life.run(length, kids(fn.body), (), world=v)[0])
+                except (dtable.Undecidable, skel.Diverges):
+                    continue
+                if r[1] != r[2]:
+                    return r, ("whole function evaluated for thread %d of %d with a chunk of %d elements, splitting algorithm %s, all elements equal"
+                               % (life.IAM, life.OTHER_INT, length, names[0] if len(names) == 1 else v))
+        return None
+    bad = None
+    try:
+        for length in range(4):
+            ev, vals = life.run(length, allunits, [] if any(contains(u, dels[0]) for u in allunits) else [dels[0]])
+            r = analyse(ev)
+            if r[1] != r[2] and bad is None:
+                bad = r
+    except dtable.Undecidable:
+        w = world_counterexample() if life.dtor_ops else None
+        if w is None:
+            raise
+        ck.violation("TEMP-DESTROY", fn.qname, tag + ":count", "the number of destroyed temporaries differs from the number constructed: %d elements %s are constructed, "
+                     "the elements %s are destroyed" % w[0] + " (%s)" % w[1], fn.nloc(life.dtor_ops[0]))
+        return [dels[0]] + life.dtor_ops
     free_nodes = [dels[0]] + life.dtor_ops
     if not life.dtor_ops:
         # absence in a closed world: every use of the buffer in the worker was evaluated above or is listed in BYVALUE_CALLS;
@@ -1055,7 +1454,7 @@ def slot_accesses(fn, R, dep, field):
             if v is None or not is_ref_ty(v.get("ty")) or not kids(v):
                 continue
             chain = strip_casts(kids(v)[0])
-        elif x["k"] in ("ArraySubscriptExpr", "CXXOperatorCallExpr", "CXXMemberCallExpr"):
+        elif x["k"] in SLOT_KINDS and (x["k"] != "UnaryOperator" or x.get("op") == "*"):
             chain = x
         else:
             continue
@@ -1147,23 +1546,27 @@ def check_barrier_phases(ck, tu, fn, tag, R, g, waits, free_nodes):
     blocked = {v: infeasible_edges(fn, g, R.L, {R.mwmsa: v}) for v in VALID_MWMSA}
     # a path that leaves a loop holding a wait without entering it is not known to be feasible (the first test of the loop
     # condition may always succeed): evidence must also avoid the heads of such loops
+    # (a loop whose first test is true on constants alone is entered: find_path sends a path that arrives at its head from
+    # outside into the body)
+    wait_loops = [lp for lp in fn.nodes() if lp["k"] in ("ForStmt", "WhileStmt") and any(contains(lp, w) for w in waits)]
+    entered, skipped = entered_loops(fn, g, R.L, wait_loops)
+    blocked = {v: (blocked[v][0] + skipped, blocked[v][1]) for v in blocked}
     heads = []
-    for lp in fn.nodes():
-        if lp["k"] in ("ForStmt", "WhileStmt") and any(contains(lp, w) for w in waits):
-            cond = match.loop_parts(lp)[1]
-            pc = g.pos_deep(cond) if cond is not None else None
-            if pc is not None:
-                heads.append(pc)
+    for lp in wait_loops:
+        cond = match.loop_parts(lp)[1]
+        pc = g.pos_deep(cond) if cond is not None else None
+        if pc is not None and pc[0] not in entered and pc[0] not in [h for h, _ in skipped]:
+            heads.append(pc)
 
     def path(a, b):
         """-> (value of mwmsa, blocks) of a feasible barrier-free path a -> b; raises Undecidable for a barrier-free path whose
         feasibility is not known; None if every path passes a barrier"""
         doubt = None
         for v in VALID_MWMSA:
-            p = find_path(g, a, b, wpos, blocked[v][0])
+            p = find_path(g, a, b, wpos, blocked[v][0], entered)
             if p is None:
                 continue
-            q = find_path(g, a, b, wpos + heads, blocked[v][0]) if heads else p
+            q = find_path(g, a, b, wpos + heads, blocked[v][0], entered) if heads else p
             if q is not None and not (set(q) & blocked[v][1]):
                 return v, q
             doubt = p
@@ -1372,64 +1775,243 @@ def calls_reaching(tu, f, name, depth=0, seen=None):
     return out
 
 
-def fork_join_shape(tu, fn):
-    """rules.parcommon.check_fork_join reads one shape of the fork/join skeleton (two counted for loops over the same printed
-    bound, the thread object indexed by the loop variable, the loop variable among the captures of the thread lambda) and
-    reports every deviation; a skeleton it does not read is Undecidable here, not a violation"""
-    spawns, joins = [], []
-    for x in fn.nodes():
-        b = match.binop(x, ("=",))
-        if b and "callee" in strip_casts(x) and any(y["k"] == "LambdaExpr" for y in ir.walk(b[2])):
-            p = match.index_parts(b[1])
-            if p and ref_of(p[0]) is not None and "thread" in (strip_casts(b[2]).get("ty") or ""):
-                spawns.append((x, p))
-        if "callee" in x and x["callee"]["name"] == "join" and "thread" in (x["callee"].get("record") or ""):
-            joins.append(x)
-    if len(spawns) != 1 or len(joins) != 1:
-        return                             # check_fork_join answers Undecidable itself
+def is_int_ty(ty):
+    return (ty or "").replace("const ", "").replace("volatile ", "").strip() in INT_TYPES
+
+
+def check_fork_join(ck, tu, fn, tag):
+    """FORK-JOIN / INDEX-BY-COPY.  slot[i] = std::thread(lambda) and slot[j].join() (or `for (std::thread& t : slots) t.join()`):
+    the loops that hold the two statements are evaluated on the integer skeleton for 1..4 threads and the started slots are
+    compared with the joined ones, in the order of the events (a slot joined before it is started is the `order` finding).
+    The thread count is whatever integer the loops read and do not change (one symbol; it must keep its value from the
+    first loop - from the declaration of the container, if its size is read - to the end).  A variable that the spawn loop
+    steps and the worker lambda reads through a by-reference capture is the INDEX-BY-COPY finding.  Every shape that is
+    not read this way is Undecidable."""
     L = Locals(tu, fn)
+    g = cfgm.CFG(fn)
 
-    def counted(node, what):
-        lp = fn.parent(node)
-        while lp is not None and lp["k"] not in LOOPS:
-            lp = fn.parent(lp)
-        if lp is None or lp["k"] != "ForStmt":
-            raise und(fn, node, "%s: not inside a for loop" % what)
-        init, cond, inc, body = match.loop_parts(lp)
-        var = [y for y in ir.walk(init) if y["k"] == "VarDecl"] if init is not None else []
-        b = match.binop(cond, ("<", "!=")) if cond is not None else None
-        if len(var) != 1 or not kids(var[0]) or const_int(kids(var[0])[0]) is None or not b or ref_of(b[1]) != var[0]["did"]:
-            raise und(fn, lp, "%s: loop is not of the form for (i = c; i < n; ...)" % what)
-        u = match.unop(inc, ("++",)) if inc is not None else None
-        ws = L.writes.get(var[0]["did"], [])
-        if not u or ref_of(u[1]) != var[0]["did"] or len(ws) != 1:
-            raise und(fn, lp, "%s: loop variable is not advanced by ++ only" % what)
-        return var[0]["did"], b[2], lp
-    vs, bs, ls = counted(spawns[0][0], "thread start")
-    vj, bj, lj = counted(joins[0], "thread join")
-    if dtable.describe(bs) != dtable.describe(bj):
-        # written differently: evidence only if both are linear in the same quantities and differ by a constant
-        from engine import linear
-        lin = linear.Lin(fn, cfgm.CFG(fn))
-        fs, fj = lin.form(bs, ls), lin.form(bj, lj)
-        if fs is None or fj is None or fs[0] != fj[0] or fs[1] == fj[1]:
-            raise und(fn, lj, "bounds of the start loop and the join loop are written differently: %s / %s" % (dtable.describe(bs), dtable.describe(bj)))
+    def through_refs(e):
+        """the expression with reference locals replaced by what they are bound to (the object, not its value)"""
+        e = strip_casts(e)
+        for _ in range(8):
+            v = L.decl.get(ref_of(e)) if e is not None else None
+            if v is None or not is_ref_ty(v.get("ty")) or not kids(v) or kids(v)[0] is None:
+                break
+            e = strip_casts(kids(v)[0])
+        return e
 
-    def index_read(idx, var, node, what):
-        """the subscript is the loop variable itself, or provably something else (another variable, a constant)"""
-        if ref_of(idx) == var:
-            return
-        r = L.resolve(match.strip_conv(idx))
-        if ref_of(r) == var or (ref_of(r) is None and const_int(r) is None):
-            raise und(fn, node, "%s is not indexed by the loop variable itself: %s" % (what, dtable.describe(idx)[:60]))
-    index_read(spawns[0][1][1], vs, spawns[0][0], "the thread object")
-    jp = match.index_parts(kids(joins[0])[0])
-    if not jp or ref_of(jp[0]) is None:
-        raise und(fn, joins[0], "joined thread object is not an element of a named container")
-    index_read(jp[1], vj, joins[0], "the joined thread object")
-    lam = [y for y in ir.walk(spawns[0][0]) if y["k"] == "LambdaExpr"][0]
-    if not any(c.get("id") == vs for c in lam.get("captures", [])):
-        raise und(fn, lam, "the thread lambda does not capture the loop variable: how it learns its index is not understood")
+    def named(e):
+        """declaration id of the object e names (looking through reference locals)"""
+        return ref_of(through_refs(e)) if e is not None else None
+
+    def lambdas_in(e):
+        """lambda expressions that e runs: written in place, or a closure variable (a closure object cannot be reassigned)"""
+        out = []
+        for y in ir.walk(e):
+            if y["k"] == "LambdaExpr":
+                out.append(y)
+            elif y["k"] == "DeclRefExpr" and y["ref"]["id"] in L.decl and kids(L.decl[y["ref"]["id"]]):
+                i0 = strip_casts(kids(L.decl[y["ref"]["id"]])[0])
+                if i0 is not None and i0["k"] == "LambdaExpr":
+                    out.append(i0)
+        return out
+    spawns, seen = [], set()
+    for x in fn.nodes():
+        x0 = strip_casts(x)
+        b = match.binop(x0, ("=",)) if x0 is not None and "callee" in x0 else None
+        if b and x0["id"] not in seen and "thread" in (strip_casts(b[2]).get("ty") or "") and lambdas_in(b[2]):
+            seen.add(x0["id"])
+            spawns.append(x0)
+    joins = [x for x in fn.nodes() if "callee" in x and x["callee"]["name"] == "join" and "thread" in (x["callee"].get("record") or "")]
+    if len(spawns) != 1 or len(joins) != 1:
+        raise dtable.Undecidable("%s: fork/join skeleton not recognised (%d spawns, %d joins)" % (fn.loc, len(spawns), len(joins)))
+    sp, jn = spawns[0], joins[0]
+    sip = match.index_parts(through_refs(match.binop(sp, ("=",))[1]))
+    if not sip or named(sip[0]) is None:
+        raise und(fn, sp, "the started thread is not stored in an element of a named container")
+    tvec, idx = named(sip[0]), sip[1]
+    lams = lambdas_in(match.binop(sp, ("=",))[2])
+    lf = tu.by_did.get(lams[0].get("fn")) if len(lams) == 1 else None
+    if lf is None:
+        raise und(fn, sp, "worker of the started thread is not one lambda whose body is available")
+
+    def ancestors(n):
+        out, par = [], fn.parent(n)
+        while par is not None:
+            out.append(par)
+            par = fn.parent(par)
+        return out
+    # ---- the joined slot: container[j] / the reference variable of a range-for over the container
+    join_all, jobj = None, kids(jn)[0] if kids(jn) else None
+    if jn.get("arrow") or jobj is None:
+        raise und(fn, jn, "the joined thread is reached through a pointer / iterator")
+    rfs = [a for a in ancestors(jn) if a["k"] == "CXXForRangeStmt"]
+    if rfs and len(kids(rfs[0])) >= 3 and kids(rfs[0])[1] is not None and ref_of(jobj) is not None and kids(rfs[0])[1].get("did") == ref_of(jobj):
+        rf = rfs[0]
+        if not is_ref_ty(kids(rf)[1].get("ty")) or named(kids(rf)[0]) is None:
+            raise und(fn, rf, "range-for that joins the threads: range / loop variable not understood")
+        body = kids(rf)[2]
+        inner = [a for a in ancestors(jn) if contains(body, a) or a is body]
+        if any(a["k"] in LOOPS + ("IfStmt", "SwitchStmt", "ConditionalOperator", "CXXTryStmt", "CXXForRangeStmt") for a in inner) or \
+                any(y["k"] in ("BreakStmt", "ContinueStmt", "ReturnStmt", "GotoStmt", "CXXThrowExpr") for y in ir.walk(body)):
+            raise und(fn, rf, "the join inside the range-for is conditional / the loop may be left early")
+        join_all, jvec, jidx = rf, named(kids(rf)[0]), None
+    else:
+        jip = match.index_parts(through_refs(jobj))
+        if not jip or named(jip[0]) is None:
+            raise und(fn, jn, "the joined thread is not an element of a named container")
+        jvec, jidx = named(jip[0]), jip[1]
+    params = {p["did"]: p for p in fn.params}
+    bad = []
+    if jvec != tvec:
+        for d in (tvec, jvec):
+            ty = (L.decl.get(d) or params.get(d) or {}).get("ty")
+            if d not in L.decl or is_ref_ty(ty) or is_ptr_ty(ty):
+                raise und(fn, jn, "the joined container may be another name of the one the threads are started in")
+        bad.append(("range", "the threads that are started are not exactly the threads that are joined (they live in different containers)"))
+
+    def outer_loop(n):
+        ls = [a for a in ancestors(n) if a["k"] in LOOPS]
+        return ls[-1] if ls else None
+    ls = outer_loop(sp)
+    lj = outer_loop(jn) if join_all is None else (join_all if ls is None or not contains(ls, join_all) else ls)
+    if ls is None or lj is None:
+        raise und(fn, sp if ls is None else jn, "threads are not started / joined in a loop")
+    if [a for a in ancestors(ls) + ancestors(lj) if a["k"] == "CXXForRangeStmt"]:
+        raise und(fn, ls, "spawn / join loop inside a range-for")
+    loops = [ls] if ls is lj else [ls, lj]
+    if len(loops) == 2:
+        ps, pj = entry_pos(fn, g, ls), (entry_pos(fn, g, lj) if lj is not join_all else g.pos_deep(kids(join_all)[0]))
+        if ps is None or pj is None:
+            raise und(fn, ls if ps is None else lj, "spawn / join loop not found in the control-flow graph")
+        if g.dominates(pj, ps):
+            loops = [lj, ls]
+        elif not g.dominates(ps, pj):
+            raise und(fn, lj, "neither of the spawn loop and the join loop is passed on every path to the other: order not decided")
+
+    def inside_loops(n):
+        return any(contains(lp, n) for lp in loops)
+
+    def modified_in_loops(d):
+        return any(inside_loops(w) for w in L.writes.get(d, []))
+    # ---- size of the container: the argument of its constructor, if nothing but element access is done to it
+    size_used = []
+
+    def container_size(sk, at):
+        v = L.decl.get(tvec)
+        ty = (v or {}).get("ty") or ""
+        init = strip_casts(kids(v)[0]) if v is not None and kids(v) else None
+        args = [a for a in kids(init) if a is not None and a["k"] != "DefaultArg"] if init is not None and init["k"] == "CXXConstructExpr" else None
+        if v is None or is_ref_ty(ty) or is_ptr_ty(ty) or not ty.replace("const ", "").startswith(("tlx::SimpleVector<", "std::vector<")) or \
+                args is None or len(args) != 1 or not is_int_ty(strip_casts(args[0]).get("ty")):
+            raise und(fn, at, "size of the thread container not understood")
+        for m in fn.nodes():
+            if "callee" in m and m.get("member_call") and kids(m) and named(kids(m)[0]) == tvec and \
+                    m["callee"]["name"] not in ("size", "operator[]", "at", "begin", "end", "data", "empty"):
+                raise und(fn, m, "%s() on the thread container: its size is not understood" % m["callee"]["name"])
+        if tvec in L.writes or tvec in L.exposed:
+            raise und(fn, at, "the thread container is assigned / handed out: its size is not understood")
+        size_used.append(v)
+        return sk.ev(args[0])
+    syms = {}
+    detail = None
+    for T in ((1, 2, 3, 4) if not bad else ()):
+        started, joined, early = [], [], []
+
+        def event(e, sk):
+            if e["id"] == sp["id"]:
+                v = sk.ev(idx)
+                if not isinstance(v, int) or isinstance(v, bool):
+                    raise und(fn, sp, "slot of the started thread depends on data")
+                started.append(v)
+                return None
+            if e["id"] == jn["id"]:
+                v = sk.ev(jidx)
+                if not isinstance(v, int) or isinstance(v, bool):
+                    raise und(fn, jn, "slot of the joined thread depends on data")
+                if v not in started:
+                    early.append(v)
+                joined.append(v)
+                return None
+            if "callee" in e and e.get("member_call") and e["callee"]["name"] == "size" and len(kids(e)) == 1 and named(kids(e)[0]) == tvec:
+                return container_size(sk, e)
+            return NotImplemented
+
+        def unknown(e, sk):
+            e0 = strip_casts(e)
+            if e0 is None or e0["k"] != "DeclRefExpr":
+                return None
+            d = e0["ref"]["id"]
+            v = L.decl.get(d)
+            if v is not None and not is_ref_ty(v.get("ty")) and L.frozen(d) and not inside_loops(v):
+                if not any(v is a for a in size_used):
+                    size_used.append(v)          # the thread count is read where this local is declared
+                return sk.ev(kids(v)[0])
+            ty = (v or params.get(d) or {}).get("ty")
+            if (v is not None or d in params) and is_int_ty(ty) and not modified_in_loops(d) and not (v is not None and inside_loops(v)):
+                syms[d] = e0["ref"]["name"]
+                return T
+            return None
+        sk = skel.Skel(fn, {}, unknown, event, tu=tu)
+        # a counter declared outside the loops and changed only inside them has its initial value at the head of the first
+        # loop (and, at the head of the second one, the value the first one left)
+        for d, v in L.decl.items():
+            ws = L.writes.get(d, [])
+            if ws and not inside_loops(v) and all(inside_loops(w) for w in ws) and d not in L.exposed and kids(v) and kids(v)[0] is not None \
+                    and not is_ref_ty(v.get("ty")):
+                sk.env[d] = sk.ev(kids(v)[0])
+        for loop in loops:
+            if loop is join_all:
+                n = container_size(sk, join_all)
+                if not isinstance(n, int) or isinstance(n, bool) or n < 0:
+                    raise und(fn, join_all, "size of the thread container not understood")
+                early += [v for v in range(n) if v not in started]
+                joined.extend(range(n))
+                continue
+            try:
+                sk.stmt(loop)
+            except skel.Return:
+                raise und(fn, loop, "return inside the spawn / join loop")
+            except dtable.Undecidable as ex:
+                raise dtable.Undecidable(str(ex).replace(fn.full, fn.loc))
+        if len(syms) > 1:
+            raise dtable.Undecidable("%s: the spawn and the join loop are bounded by different variables (%s): whether they are equal is not decided"
+                                     % (fn.loc, ", ".join(sorted(syms.values()))))
+        sym = next(iter(syms.values()), "the bound")
+        if sorted(started) != sorted(joined) or len(set(started)) != len(started):
+            bad.append(("range", "the threads that are started are not exactly the threads that are joined"))
+            detail = "with %s = %d: started %s, joined %s" % (sym, T, sorted(started), sorted(joined))
+            break
+        if early:
+            bad.append(("order", "threads are joined before all of them were started"))
+            detail = "with %s = %d: slot %d is joined before it is started" % (sym, T, early[0])
+            break
+    # the thread count must mean the same wherever it was read
+    anchors = [g.pos_deep(a) for a in size_used] + [entry_pos(fn, g, loops[0]) if loops[0] is not join_all else g.pos_deep(kids(join_all)[0])]
+    for d in syms:
+        if d in L.exposed and not is_const_ty((L.decl.get(d) or params.get(d) or {}).get("ty")):
+            raise und(fn, loops[0], "%s (the thread count) may change through a reference / pointer" % syms[d])
+        for m in L.writes.get(d, []):
+            pm = g.pos_deep(m)
+            if pm is None or any(a is None or g.reachable(a, pm) for a in anchors):
+                raise und(fn, m, "%s (the thread count) changes after the threads were started / the container was sized" % syms[d])
+    # ---- the worker's view of the loop variables
+    variant = {d for d in list(L.decl) + list(params) if any(contains(ls, w) for w in L.writes.get(d, []))}
+    used = {y["ref"]["id"] for y in lf.nodes() if y["k"] == "DeclRefExpr"}
+    caps = lams[0].get("captures", [])
+    byref = [c for c in caps if c.get("byref") and c.get("id") in variant and c.get("id") in used]
+    if byref and ls is lj:
+        raise und(fn, sp, "%s is captured by reference and stepped by the loop that also joins the thread: whether the thread still runs when it is stepped is not decided"
+                  % byref[0].get("name"))
+    if byref:
+        bad.append(("index-capture", "the loop index is captured by reference: the thread reads it after the loop has advanced"))
+    for sig, msg in bad:
+        ck.violation("FORK-JOIN" if sig != "index-capture" else "INDEX-BY-COPY", fn.qname, "%s:%s" % (tag, sig),
+                     msg + (" (%s)" % detail if detail and sig != "index-capture" else ""), fn.nloc(sp))
+    if not bad:
+        ck.ok("FORK-JOIN", tag, "threads[i] started for i in [0, %s) and all joined before the result is used" % next(iter(syms.values()), "n"))
+        ck.ok("INDEX-BY-COPY", tag, "worker lambda captures the loop index by copy")
+    return lf
 
 
 def check_worker_variant(ck, tu, fn, tag):
@@ -1616,10 +2198,7 @@ def run(ck):
             ck.guarded(lambda fn=fn, tag=tag, ctx=ctx: check_stable(ck, tu, fn, tag, ctx["R"], ctx["life"]))
         for fn in tu.some(qname=BASE):
             tag = "parallel_mergesort_base<%s>" % fn.targs[0]
-            def fork_join(fn=fn, tag=tag):
-                fork_join_shape(tu, fn)
-                check_fork_join(ck, tu, fn, tag)
-            ck.guarded(fork_join)
+            ck.guarded(lambda fn=fn, tag=tag: check_fork_join(ck, tu, fn, tag))
             ck.guarded(lambda fn=fn, tag=tag: check_worker_variant(ck, tu, fn, tag))
         for q, st in (("tlx::parallel_mergesort", "false"), ("tlx::stable_parallel_mergesort", "true")):
             ck.guarded(lambda q=q, st=st: check_front(ck, tu, q, st))
@@ -1628,6 +2207,12 @@ def run(ck):
         from rules.parcommon import check_comp_threaded_all
         nct = check_comp_threaded_all(ck, tu, ("tlx::parallel_mergesort_detail::", "tlx::multiway_merge_detail::", "tlx::parallel_"))
         ck.require(nct >= 2, "no standard ordering algorithm found below the expected namespaces")
+        # exact splitting stands on multisequence_partition: the C08 rules for the instantiation this translation unit holds.
+        # Guarded: a construct those rules cannot read is deferred (exit 2) and does not hide what the rules above found.
+        def partition(tu=tu):
+            from rules import c08
+            ck.require(c08.check_partition_in(ck, tu) >= 1, "exact splitting must reach multisequence_partition")
+        ck.guarded(partition)
         nt = c09.check_trees_in(ck, tu)
         ck.require(nt >= 4, "the k >= 5 merge of the sorted runs uses loser trees; expected 4 instantiated classes, found %d" % nt)
     m = len(types)
